@@ -60,6 +60,10 @@ def make_case(rng, cid, wd, variant=None, defaults=False, edges=None, const_w=Fa
         args += ['--maxit', str(maxit)]
         nconv = rng.choice([1, 1, 2, 3])
         args += ['--y', str(nconv)]
+    elif cid % 2 == 0:
+        # the default iteration limit is only visible in a run that cannot converge before it: 60 consecutive passes need 600 sweeps
+        nconv = 60
+        args += ['--y', '60']
     out_name = 'results'
     if not defaults:
         out_name = rng.choice(['out', 'results', 'res_%d' % cid])
